@@ -20,9 +20,11 @@ import WntrModel.Gen.SchemaInp
 import WntrModel.Gen.SchemaDict
 import WntrModel.Gen.Units
 import WntrModel.Props.C17
+import WntrModel.Props.C13
 import Mathlib.Data.List.Basic
 import Mathlib.Tactic.Ring
 import Mathlib.Tactic.Linarith
+import Mathlib.Tactic.SplitIfs
 
 namespace Wntr.InpSchema
 
@@ -234,3 +236,214 @@ theorem option_keywords_roundtrip :
   refine ⟨?_, ?_, ?_, ?_⟩ <;> decide +kernel
 
 end Wntr.InpSchema
+
+/-! ## Part B — the text of controls and rules (`Model/InpText.lean`) -/
+namespace Wntr.InpText
+
+/-! ### times -/
+
+/-- **`time_hms_roundtrip`**: `h:mm:ss` (as written by `_write_times`, `_sec_to_hours_min_sec` and the repaired
+`_write_controls`) read by `_str_time_to_sec` gives the same whole second, for every non-negative time -/
+theorem time_hms_roundtrip (s : Int) (_h : 0 ≤ s) :
+    strTimeToSec (hmsOf s).1 (hmsOf s).2.1 (hmsOf s).2.2 = s := by
+  simp only [hmsOf, strTimeToSec]
+  omega
+
+/-- the fields are a proper clock reading -/
+theorem hms_ranges (s : Int) (h : 0 ≤ s) : 0 ≤ (hmsOf s).1 ∧ 0 ≤ (hmsOf s).2.1 ∧ (hmsOf s).2.1 < 60 ∧ 0 ≤ (hmsOf s).2.2 ∧ (hmsOf s).2.2 < 60 := by
+  simp only [hmsOf]
+  omega
+
+/-- **`clock_roundtrip`**: a time of day printed by `_sec_to_clock` (12-hour clock, AM/PM) and parsed by `_parse_value`
+(as repaired by 7806f17d) is unchanged — including the 12 o'clock hours -/
+theorem clock_roundtrip (s : Int) (h0 : 0 ≤ s) (h1 : s < 86400) :
+    parseClock (secToClock s).1 (secToClock s).2.1 (secToClock s).2.2.1 (secToClock s).2.2.2 = s := by
+  simp only [secToClock, clockHour, clockPm, hmsOf, parseClock]
+  by_cases h12 : s / 3600 ≥ 12
+  · by_cases h13 : s / 3600 > 12
+    · simp only [h12, h13, if_true, decide_true]
+      split_ifs <;> omega
+    · simp only [h12, h13, if_true, if_false, decide_true]
+      split_ifs <;> omega
+  · have hpm : decide (s / 3600 ≥ 12) = false := decide_eq_false h12
+    by_cases hz : s / 3600 = 0
+    · simp only [if_neg h12, if_pos hz, hpm, Bool.false_eq_true, if_false]
+      split_ifs <;> omega
+    · simp only [if_neg h12, if_neg hz, hpm, Bool.false_eq_true, if_false]
+      split_ifs <;> omega
+
+def ClockRoundtripFull : Prop :=
+  ∀ s : Int, 0 ≤ s → parseClock (secToClock s).1 (secToClock s).2.1 (secToClock s).2.2.1 (secToClock s).2.2.2 = s
+
+/-- beyond one day the 12-hour form is not injective (25:00 is shown as 13:00 PM and read as 13:00): the hypothesis
+`s < 86400` of `clock_roundtrip` is needed -/
+theorem clock_counterexample : ¬ ClockRoundtripFull := by
+  intro h
+  have := h 90000 (by decide)
+  revert this
+  decide
+
+example : parseClock (secToClock 45000).1 (secToClock 45000).2.1 (secToClock 45000).2.2.1 (secToClock 45000).2.2.2 = 45000 := by decide
+
+/-- why the repair was needed: decimal hours with six significant digits lose the seconds (3661 s → 3660 s) -/
+theorem legacy_time_loses_seconds : legacyTimeRoundtrip 3661 = 3660 ∧ legacyTimeRoundtrip 4139 = 4138 := by
+  constructor <;> decide +kernel
+
+/-! ### simple controls -/
+
+/-- **`control_line_roundtrip`**: for every simple control (status / setting / speed token opaque) on a time, a clock time or
+a node threshold, reading the line that was written gives the control back, a head condition coming back as the same
+condition in the section's datum (level of a tank, pressure of a junction) -/
+theorem control_line_roundtrip (lookup : String → Option (NodeKind × Int)) (c : Ctl) (hw : c.cond.wf lookup) :
+    parseCtl lookup (printCtl c) = some { c with cond := c.cond.norm } := by
+  obtain ⟨lt, l, st, cond⟩ := c
+  cases cond with
+  | time sec =>
+    have := time_hms_roundtrip sec hw
+    simp only [printCtl, List.cons_append, List.nil_append, parseCtl, CtlCond.norm]
+    simp [this]
+  | clock sec =>
+    have := time_hms_roundtrip sec hw
+    simp only [printCtl, List.cons_append, List.nil_append, parseCtl, CtlCond.norm]
+    simp [this]
+  | node k n e a ab th =>
+    obtain ⟨hl, _⟩ := hw
+    cases ab <;> simp [printCtl, parseCtl, hl, CtlCond.norm]
+
+/-- exact round trip on the fragment the [CONTROLS] syntax expresses directly -/
+theorem control_line_roundtrip_exact (lookup : String → Option (NodeKind × Int)) (c : Ctl) (hw : c.cond.wf lookup)
+    (hattr : ∀ k n e a ab th, c.cond = .node k n e a ab th → a = k.attr) :
+    parseCtl lookup (printCtl c) = some c := by
+  rw [control_line_roundtrip lookup c hw]
+  obtain ⟨lt, l, st, cond⟩ := c
+  cases cond with
+  | time _ => rfl
+  | clock _ => rfl
+  | node k n e a ab th =>
+    have := hattr k n e a ab th rfl
+    subst this
+    cases k <;> simp [CtlCond.norm, NodeKind.attr]
+
+/-- the statement for the writer BEFORE the repair (threshold of a head condition written unchanged) … -/
+def LegacyControlRoundtrip : Prop :=
+  ∀ (lookup : String → Option (NodeKind × Int)) (c : Ctl), c.cond.wf lookup →
+    parseCtl lookup (printCtlLegacy c) = some { c with cond := c.cond.norm }
+
+/-- … is false: `Tank T1 head > 24` (elevation 20) came back as `level > 24` instead of `level > 4` -/
+theorem legacy_control_head_counterexample : ¬ LegacyControlRoundtrip := by
+  intro h
+  have := h (fun _ => some (.tank, 20)) ⟨"Pipe", "P2", .word "Open", .node .tank "T1" 20 .head true 24⟩ ⟨rfl, Or.inl rfl⟩
+  revert this
+  decide
+
+/-- non-vacuity -/
+example : parseCtl (fun _ => some (.tank, 20)) (printCtl ⟨"Pipe", "P2", .word "Open", .node .tank "T1" 20 .head true 24⟩) =
+    some ⟨"Pipe", "P2", .word "Open", .node .tank "T1" 20 .level true 4⟩ := by decide
+
+/-! ### rules -/
+
+variable {α β : Type}
+
+theorem flatten_head (c : Cond α) (p : Conj) : ∃ a rest, flatten c p = (p, a) :: rest := by
+  induction c generalizing p with
+  | atom a => exact ⟨a, [], rfl⟩
+  | and l r ihl _ =>
+    obtain ⟨a, rest, h⟩ := ihl p
+    exact ⟨a, rest ++ flatten r .and_, by simp [flatten, h]⟩
+  | or l r ihl _ =>
+    obtain ⟨a, rest, h⟩ := ihl p
+    exact ⟨a, rest ++ flatten r .or_, by simp [flatten, h]⟩
+
+/-- condition lines read in the IF block are appended to the IF clauses -/
+theorem fold_cond_lines (cls : List (Conj × α)) (st : PState α β) (hm : st.mode = .inIf) :
+    (cls.map fun cl => (cl.1.kw, Payload.atom (β := β) cl.2)).foldl stepR st = { st with ifs := st.ifs ++ cls } := by
+  induction cls generalizing st with
+  | nil => simp
+  | cons cl t ih =>
+    obtain ⟨cj, a⟩ := cl
+    simp only [List.map_cons, List.foldl_cons]
+    have hstep : stepR st (cj.kw, Payload.atom a) = { st with ifs := st.ifs ++ [(cj, a)] } := by
+      cases cj <;> simp [stepR, Conj.kw, hm]
+    rw [hstep, ih _ (by simpa using hm)]
+    simp [List.append_assoc]
+
+theorem fold_then_lines (bs : List β) (st : PState α β) (hm : st.mode = .inThen) :
+    (bs.map fun x => (Kw.and_, Payload.act (α := α) x)).foldl stepR st = { st with thens := st.thens ++ bs } := by
+  induction bs generalizing st with
+  | nil => simp
+  | cons b t ih =>
+    simp only [List.map_cons, List.foldl_cons]
+    have hstep : stepR st (Kw.and_, Payload.act b) = { st with thens := st.thens ++ [b] } := by simp [stepR, hm]
+    rw [hstep, ih _ (by simpa using hm)]
+    simp [List.append_assoc]
+
+theorem fold_else_lines (bs : List β) (st : PState α β) (hm : st.mode = .inElse) :
+    (bs.map fun x => (Kw.and_, Payload.act (α := α) x)).foldl stepR st = { st with elses := st.elses ++ bs } := by
+  induction bs generalizing st with
+  | nil => simp
+  | cons b t ih =>
+    simp only [List.map_cons, List.foldl_cons]
+    have hstep : stepR st (Kw.and_, Payload.act b) = { st with elses := st.elses ++ [b] } := by simp [stepR, hm]
+    rw [hstep, ih _ (by simpa using hm)]
+    simp [List.append_assoc]
+
+theorem fold_actLines_then (bs : List β) (st : PState α β) :
+    (actLines (α := α) .then_ bs).foldl stepR st = (if bs = [] then st else { st with mode := .inThen, thens := st.thens ++ bs }) := by
+  cases bs with
+  | nil => simp [actLines]
+  | cons b t =>
+    simp only [actLines, List.foldl_cons]
+    have hstep : stepR st (Kw.then_, Payload.act b) = { st with mode := .inThen, thens := st.thens ++ [b] } := by simp [stepR]
+    rw [hstep, fold_then_lines t _ rfl]
+    simp [List.append_assoc]
+
+theorem fold_actLines_else (bs : List β) (st : PState α β) :
+    (actLines (α := α) .else_ bs).foldl stepR st = (if bs = [] then st else { st with mode := .inElse, elses := st.elses ++ bs }) := by
+  cases bs with
+  | nil => simp [actLines]
+  | cons b t =>
+    simp only [actLines, List.foldl_cons]
+    have hstep : stepR st (Kw.else_, Payload.act b) = { st with mode := .inElse, elses := st.elses ++ [b] } := by simp [stepR]
+    rw [hstep, fold_else_lines t _ rfl]
+    simp [List.append_assoc]
+
+/-- the lines of a printed rule are sorted back into the three blocks and the priority -/
+theorem fold_printRule (r : Rule α β) (hp : 0 ≤ r.priority) :
+    ((printRule r).foldl stepR PState.init).ifs = flatten r.cond .if_ ∧
+    ((printRule r).foldl stepR PState.init).thens = r.thens ∧
+    ((printRule r).foldl stepR PState.init).elses = r.elses ∧
+    ((printRule r).foldl stepR PState.init).priority = r.priority := by
+  obtain ⟨a, rest, hfl⟩ := flatten_head r.cond .if_
+  simp only [printRule, List.foldl_append, hfl, List.map_cons, List.foldl_cons]
+  have h1 : stepR (PState.init (α := α) (β := β)) (Conj.if_.kw, Payload.atom a) = ⟨.inIf, [(.if_, a)], [], [], 0⟩ := by
+    simp [stepR, Conj.kw, PState.init]
+  rw [h1, fold_cond_lines rest _ rfl, fold_actLines_then, fold_actLines_else]
+  have hp' : r.priority ≥ 0 := hp
+  simp only [hp', if_true, List.foldl_cons, List.foldl_nil]
+  by_cases ht : r.thens = [] <;> by_cases he : r.elses = [] <;> simp [ht, he, stepR]
+
+/-- **`rule_text_roundtrip`**: a rule whose condition is a left-nested AND of left-nested ORs, with any number of THEN and
+ELSE actions and a non-negative priority, is re-created exactly from its lines -/
+theorem rule_text_roundtrip (r : Rule α β) (hc : isShape r.cond = true) (hp : 0 ≤ r.priority) :
+    parseRule (printRule r) = some r := by
+  obtain ⟨h1, h2, h3, h4⟩ := fold_printRule r hp
+  simp only [parseRule, h1, h2, h3, h4, rule_condition_roundtrip r.cond hc]
+
+/-- the full statement over all condition trees … -/
+def RuleTextRoundtripFull : Prop := ∀ r : Rule Nat Nat, 0 ≤ r.priority → parseRule (printRule r) = some r
+
+/-- … is false (mixed AND/OR: recorded finding `rules-condition-mixed-and-or-regrouped`) -/
+theorem rule_text_counterexample : ¬ RuleTextRoundtripFull := by
+  intro h
+  have := h ⟨.or (.and (.atom 0) (.atom 1)) (.atom 2), [7], [], 3⟩ (by decide)
+  revert this
+  decide
+
+/-- a negative priority is not written (`__str__` prints PRIORITY only when ≥ 0) and comes back as 0 -/
+example : parseRule (printRule (⟨.atom 0, [7], [8, 9], -1⟩ : Rule Nat Nat)) = some ⟨.atom 0, [7], [8, 9], 0⟩ := by decide
+
+/-- non-vacuity: ELSE block, several actions, priority -/
+example : parseRule (printRule (⟨.and (.or (.atom 0) (.atom 1)) (.atom 2), [7, 8], [9], 5⟩ : Rule Nat Nat)) =
+    some ⟨.and (.or (.atom 0) (.atom 1)) (.atom 2), [7, 8], [9], 5⟩ := by decide
+
+end Wntr.InpText
